@@ -322,3 +322,260 @@ Proof.
   - cbn [o_trace o_printed o_status]. split; [intros e [<-|[]]; reflexivity|]. intros _. repeat split.
   - cbn [o_trace]. split; [intros e []|]. intros Hin. apply mem_true in Hin. congruence.
 Qed.
+
+(* ====================================================================================
+   Handler bodies in strict mode: the model's interpreter (run_cmd / exec_from) against
+   the Spec's reading of "the handler fails" (leaves / ends / strict_status), and
+   hook::run over bodies (dispatchB / runB) against the loop over abstract statuses. *)
+
+Lemma find_app' {A} (f : A -> bool) l1 l2 :
+  find f (l1 ++ l2) = match find f l1 with Some x => Some x | None => find f l2 end.
+Proof. induction l1 as [|a r IH]; simpl; [reflexivity|]. destruct (f a); [reflexivity | exact IH]. Qed.
+
+Lemma pipe_status_rev sts : forall acc,
+  pipe_status sts acc = match find nonzero (rev sts) with Some s => s | None => acc end.
+Proof.
+  induction sts as [|s r IH]; intros acc; simpl; [reflexivity|].
+  rewrite IH, find_app'. destruct (find nonzero (rev r)); [reflexivity|].
+  simpl. unfold nonzero. destruct (N.eqb s 0); reflexivity.
+Qed.
+
+Lemma run_block_status k sts : forall j, snd (run_block k j sts) = first_failure sts.
+Proof.
+  unfold first_failure. induction sts as [|s r IH]; intros j; [reflexivity|].
+  cbn [run_block find]. unfold nonzero at 1. destruct (N.eqb s 0) eqn:E; cbn [negb].
+  - specialize (IH (N.succ j)). destruct (run_block k (N.succ j) r) as [t st]. exact IH.
+  - reflexivity.
+Qed.
+
+(* each command: the model's status and "the function ends here" are the Spec's *)
+Lemma run_cmd_spec k c : snd (fst (run_cmd k c)) = leaves c /\ snd (run_cmd k c) = ends c.
+Proof.
+  destruct c as [st|sts|st|st|st|st|st|st| |sts|sts|sts|sts]; cbn [run_cmd leaves ends fst snd];
+    try (split; reflexivity).
+  - rewrite pipe_status_rev. unfold first_failure, nonzero. split; reflexivity.
+  - pose proof (run_block_status k sts 1%N) as H. destruct (run_block k 1%N sts) as [t s]. cbn [fst snd] in *.
+    subst s. split; reflexivity.
+  - pose proof (run_block_status k sts 1%N) as H. destruct (run_block k 1%N sts) as [t s]. cbn [fst snd] in *.
+    subst s. split; reflexivity.
+  - pose proof (run_block_status k sts 1%N) as H. destruct (run_block k 1%N sts) as [t s]. cbn [fst snd] in *.
+    subst s. split; reflexivity.
+  - destruct (run_block k 1%N sts) as [t s]. split; reflexivity.
+Qed.
+
+Lemma last_indep {A} (l : list A) a d d' : last (a :: l) d = last (a :: l) d'.
+Proof. revert a. induction l as [|b r IH]; intros a; [reflexivity|]. cbn [last] in *. apply IH. Qed.
+
+Lemma last_cons' {A} (l : list A) a d : last (a :: l) d = last l a.
+Proof. destruct l as [|b r]; [reflexivity|]. cbn [last]. apply (last_indep r b d a). Qed.
+
+Lemma exec_from_status b : forall k lst,
+  snd (exec_from k b lst) =
+  match find ends b with Some c => leaves c | None => last (map leaves b) lst end.
+Proof.
+  induction b as [|c r IH]; intros k lst; [reflexivity|].
+  cbn [exec_from find map]. destruct (run_cmd_spec k c) as [H1 H2].
+  destruct (run_cmd k c) as [[inner st] e]. cbn [fst snd] in H1, H2. subst st e.
+  destruct (ends c).
+  - reflexivity.
+  - specialize (IH (N.succ k) (leaves c)). destruct (exec_from (N.succ k) r (leaves c)) as [t f].
+    cbn [snd] in *. rewrite IH. destruct (find ends r); [reflexivity|]. now rewrite last_cons'.
+Qed.
+
+Lemma exec_body_status b : snd (exec_body b) = strict_status b.
+Proof. unfold exec_body, strict_status. apply exec_from_status. Qed.
+
+(* ---------- which commands start ---------- *)
+
+(* the commands up to and including the first one that ends the handler *)
+Fixpoint upto_end (b : body) : body :=
+  match b with [] => [] | c :: r => if ends c then [c] else c :: upto_end r end.
+
+(* ... of a block: up to and including the first failing one *)
+Fixpoint upto_failure (sts : list N) : list N :=
+  match sts with [] => [] | s :: r => if N.eqb s 0 then s :: upto_failure r else [s] end.
+
+Fixpoint positions (k : N) (n : nat) : list N :=
+  match n with O => [] | S m => k :: positions (N.succ k) m end.
+
+(* the marks of the body's own commands (inner marks of blocks dropped) *)
+Definition top (ss : list step) : list N := map fst (filter (fun s => N.eqb (snd s) 0) ss).
+
+Lemma run_block_marks k sts : forall j,
+  fst (run_block k j sts) = map (fun p => (k, p)) (positions j (length (upto_failure sts))).
+Proof.
+  induction sts as [|s r IH]; intros j; [reflexivity|].
+  cbn [run_block upto_failure]. destruct (N.eqb s 0).
+  - specialize (IH (N.succ j)). destruct (run_block k (N.succ j) r) as [t st]. cbn [fst] in *.
+    cbn [length positions map]. now rewrite IH.
+  - reflexivity.
+Qed.
+
+Lemma positions_inner_nonzero k n : forall j, j <> 0%N ->
+  filter (fun s : step => N.eqb (snd s) 0) (map (fun p => (k, p)) (positions j n)) = [].
+Proof.
+  induction n as [|n IH]; intros j Hj; [reflexivity|].
+  cbn [positions map filter snd]. apply N.eqb_neq in Hj. rewrite Hj. apply IH. lia.
+Qed.
+
+Lemma run_cmd_inner k c : filter (fun s : step => N.eqb (snd s) 0) (fst (fst (run_cmd k c))) = [].
+Proof.
+  destruct c as [st|sts|st|st|st|st|st|st| |sts|sts|sts|sts]; cbn [run_cmd fst]; try reflexivity;
+    pose proof (run_block_marks k sts 1%N) as H; destruct (run_block k 1%N sts) as [t s]; cbn [fst] in *;
+    subst t; apply positions_inner_nonzero; lia.
+Qed.
+
+Lemma filter_app' {A} (f : A -> bool) l1 l2 : filter f (l1 ++ l2) = filter f l1 ++ filter f l2.
+Proof. induction l1 as [|a r IH]; simpl; [reflexivity|]. destruct (f a); simpl; now rewrite IH. Qed.
+
+Lemma filter_top_cons k (l : list step) :
+  filter (fun s : step => N.eqb (snd s) 0) ((k, 0%N) :: l) = (k, 0%N) :: filter (fun s : step => N.eqb (snd s) 0) l.
+Proof. reflexivity. Qed.
+
+Lemma exec_from_top b : forall k lst,
+  top (fst (exec_from k b lst)) = positions k (length (upto_end b)).
+Proof.
+  unfold top. induction b as [|c r IH]; intros k lst; [reflexivity|].
+  cbn [exec_from upto_end]. destruct (run_cmd_spec k c) as [_ H2]. pose proof (run_cmd_inner k c) as H3.
+  destruct (run_cmd k c) as [[inner st] e]. cbn [fst snd] in H2, H3. subst e.
+  destruct (ends c).
+  - cbn [fst]. rewrite filter_top_cons, H3. reflexivity.
+  - specialize (IH (N.succ k) st). destruct (exec_from (N.succ k) r st) as [t f]. cbn [fst] in *.
+    rewrite filter_top_cons, filter_app', H3. cbn [app map fst length positions].
+    f_equal. exact IH.
+Qed.
+
+Lemma exec_body_top b : top (fst (exec_body b)) = positions 0%N (length (upto_end b)).
+Proof. apply exec_from_top. Qed.
+
+(* nothing after the command that ends the handler matters *)
+Lemma strict_status_split pre cm post :
+  (forall x, In x pre -> ends x = false) -> ends cm = true ->
+  strict_status (pre ++ cm :: post) = leaves cm /\ upto_end (pre ++ cm :: post) = pre ++ [cm].
+Proof.
+  intros Hpre Hcm.
+  assert (H : find ends (pre ++ cm :: post) = Some cm /\ upto_end (pre ++ cm :: post) = pre ++ [cm]).
+  { induction pre as [|a r IH].
+    - cbn [app find upto_end]. rewrite Hcm. split; reflexivity.
+    - cbn [app find upto_end]. rewrite (Hpre a (or_introl eq_refl)).
+      destruct IH as [H1 H2]; [intros x Hx; apply Hpre; now right|]. rewrite H2. split; [exact H1 | reflexivity]. }
+  destruct H as [H1 H2]. unfold strict_status. rewrite H1. split; [reflexivity | exact H2].
+Qed.
+
+(* a body no command of which ends the handler runs to its end *)
+Lemma strict_status_through b :
+  (forall x, In x b -> ends x = false) ->
+  strict_status b = last (map leaves b) 0%N /\ upto_end b = b.
+Proof.
+  intros H. split.
+  - unfold strict_status. destruct (find ends b) as [c|] eqn:E; [|reflexivity].
+    apply find_some in E as [Hin He]. rewrite (H c Hin) in He. discriminate.
+  - induction b as [|a r IH]; [reflexivity|]. cbn [upto_end]. rewrite (H a (or_introl eq_refl)).
+    rewrite IH; [reflexivity|]. intros x Hx. apply H. now right.
+Qed.
+
+(* ---------- hook::run over bodies refines the loop over statuses ---------- *)
+
+Lemma dispatchB_dispatch defined bodies cs : forall i,
+  dispatch_from defined (results_of_bodies bodies) i cs =
+    (fst (fst (dispatchB_from defined bodies i cs)), snd (dispatchB_from defined bodies i cs)) /\
+  length (snd (fst (dispatchB_from defined bodies i cs))) = length (fst (fst (dispatchB_from defined bodies i cs))).
+Proof.
+  induction cs as [|c r IH]; intros i; [split; reflexivity|].
+  cbn [dispatchB_from dispatch_from]. destruct (table c) as [l|]; [|split; reflexivity].
+  destruct (first_defined defined (l ++ [main_name])) as [h|]; [|split; reflexivity].
+  assert (Hr : results_of_bodies bodies h i = snd (exec_body (bodies h i))).
+  { unfold results_of_bodies. now rewrite exec_body_status. }
+  rewrite !Hr. clear Hr.
+  destruct (exec_body (bodies h i)) as [ss st]. cbn [snd].
+  destruct (N.eqb st 0).
+  - destruct (IH (N.succ i)) as [H1 H2]. rewrite H1.
+    destruct (dispatchB_from defined bodies (N.succ i) r) as [[t s] f]. cbn [fst snd] in *.
+    split; [reflexivity | cbn [length]; now rewrite H2].
+  - split; reflexivity.
+Qed.
+
+(* the marks recorded for invocation k are those of the body of the handler named in
+   entry k, at the context index named there *)
+Lemma steps_entries defined bodies cs : forall i k e,
+  nth_error (fst (fst (dispatchB_from defined bodies i cs))) k = Some e ->
+  nth_error (snd (fst (dispatchB_from defined bodies i cs))) k =
+    Some (fst (exec_body (bodies (fst (fst e)) (snd (fst e))))).
+Proof.
+  induction cs as [|c r IH]; intros i k e Hn; [destruct k; discriminate|].
+  cbn [dispatchB_from] in *. destruct (table c) as [l|]; [|destruct k; discriminate].
+  destruct (first_defined defined (l ++ [main_name])) as [h|]; [|destruct k; discriminate].
+  destruct (exec_body (bodies h i)) as [ss st] eqn:Ee.
+  destruct (N.eqb st 0).
+  - specialize (IH (N.succ i)). destruct (dispatchB_from defined bodies (N.succ i) r) as [[t s] f].
+    cbn [fst snd] in *. destruct k as [|k].
+    + cbn [nth_error] in *. inversion Hn; subst e. cbn [fst snd]. now rewrite Ee.
+    + cbn [nth_error] in *. now apply IH.
+  - cbn [fst snd] in *. destruct k as [|k]; [|destruct k; discriminate].
+    cbn [nth_error] in *. inversion Hn; subst e. cbn [fst snd]. now rewrite Ee.
+Qed.
+
+Definition runB_i (i : inputB) : obsB := runB (ib_args i) (ib_defined i) (ib_bodies i) (ib_ctxs i).
+
+Lemma runB_run args defined bodies cs :
+  ob_obs (runB args defined bodies cs) = run args defined (results_of_bodies bodies) cs /\
+  length (ob_steps (runB args defined bodies cs)) = length (o_trace (ob_obs (runB args defined bodies cs))).
+Proof.
+  unfold runB, run. destruct (is_config args).
+  - destruct (mem config_name defined).
+    + unfold results_of_bodies. rewrite <- exec_body_status.
+      destruct (exec_body (bodies config_name 0%N)) as [ss st]. split; reflexivity.
+    + split; reflexivity.
+  - unfold dispatch, dispatchB. destruct (dispatchB_dispatch defined bodies cs 0%N) as [H1 H2]. rewrite H1.
+    destruct (dispatchB_from defined bodies 0%N cs) as [[t s] f]. cbn [fst snd] in *. split; [reflexivity | exact H2].
+Qed.
+
+Lemma strict_meets_spec_partial i :
+  in_domain (to_input i) = true -> T (to_input i) = false -> PB i (ob_obs (runB_i i)) = true.
+Proof.
+  intros Hd HT. unfold PB, runB_i. rewrite (proj1 (runB_run _ _ _ _)).
+  exact (meets_spec_partial (to_input i) Hd HT).
+Qed.
+
+Lemma positions_length k n : length (positions k n) = n.
+Proof. revert k. induction n as [|n IH]; intros k; [reflexivity|]. simpl. now rewrite IH. Qed.
+
+(* a command in the middle of the chosen handler's body ends it with a non-zero status:
+   the run stops there - whatever follows in the body and whatever contexts follow *)
+Lemma stops_inside_handler defined bodies cs k c h pre cm post :
+  ok cs ->
+  nth_error cs k = Some c ->
+  (forall j c', (j < k)%nat -> nth_error cs j = Some c' -> served defined (results_of_bodies bodies) j c') ->
+  chosen defined c = Some h ->
+  bodies h (N.of_nat k) = pre ++ cm :: post ->
+  (forall x, In x pre -> ends x = false) -> ends cm = true -> leaves cm <> 0%N ->
+  let X := dispatchB defined bodies cs in
+  snd X = leaves cm /\ snd X <> 0%N /\ length (fst (fst X)) = S k /\ length (snd (fst X)) = S k /\
+  nth_error (fst (fst X)) k = Some (h, N.of_nat k, cur_binding c) /\
+  exists ss, nth_error (snd (fst X)) k = Some ss /\ top ss = positions 0%N (S (length pre)).
+Proof.
+  intros Hok Hn Hpre Hch Hb Hnone Hends Hne X.
+  destruct (strict_status_split pre cm post Hnone Hends) as [Hst Hup].
+  assert (Hres : results_of_bodies bodies h (N.of_nat k) = leaves cm).
+  { unfold results_of_bodies. now rewrite Hb. }
+  destruct (stops_at_first_failure defined (results_of_bodies bodies) cs k c Hok Hn Hpre) as [_ H].
+  specialize (H h Hch). rewrite Hres in H. destruct (H Hne) as [H1 [H2 [H3 H4]]].
+  destruct (dispatchB_dispatch defined bodies cs 0%N) as [D1 D2].
+  unfold dispatch in *. rewrite D1 in *. cbn [fst snd] in *.
+  subst X. unfold dispatchB.
+  split; [exact H2|]. split; [exact H1|]. split; [exact H3|]. split; [now rewrite D2|]. split; [exact H4|].
+  eexists. split; [exact (steps_entries defined bodies cs 0%N k _ H4)|].
+  cbn [fst snd]. rewrite exec_body_top, Hb, Hup, app_length. cbn [length]. f_equal. lia.
+Qed.
+
+Lemma body_strict_mode b :
+  snd (exec_body b) = strict_status b /\
+  top (fst (exec_body b)) = positions 0%N (length (upto_end b)) /\
+  (forall pre cm post, b = pre ++ cm :: post -> (forall x, In x pre -> ends x = false) -> ends cm = true ->
+     strict_status b = leaves cm /\ upto_end b = pre ++ [cm]) /\
+  ((forall x, In x b -> ends x = false) -> strict_status b = last (map leaves b) 0%N /\ upto_end b = b).
+Proof.
+  split; [apply exec_body_status|]. split; [apply exec_body_top|]. split.
+  - intros pre cm post -> Hpre Hcm. now apply strict_status_split.
+  - apply strict_status_through.
+Qed.
